@@ -268,9 +268,12 @@ class _NumericOperationsImpl(OperationsBlock):
 
     @validate_core
     def pow(self, x, y):
-        x, y = ndx.asarray(x), ndx.asarray(y)
-        dtype = ndx.result_type(x, y)
-        if isinstance(dtype, (dtypes.Unsigned, dtypes.NullableUnsigned)):
+        x, y = promote(x, y)
+        dtype = x.dtype
+        if isinstance(
+            dtype, (dtypes.Integral, dtypes.NullableIntegral)
+        ) and dtype not in (dtypes.int32, dtypes.int64, dtypes.nint32, dtypes.nint64):
+            # ONNX Pow is only defined for (u)int8/16 and unsigned types via a wider type
             return binary_op(x, y, opx.pow, dtypes.int64)
         else:
             return binary_op(x, y, opx.pow)
